@@ -1625,6 +1625,18 @@ class _IfExpStmt(ast.NodeTransformer):
         return self._split(st, ife, with_arg)
 
     def visit_Expr(self, st):
+        # (f if c else g)(args)   ==   if c: f(args)  else: g(args)
+        if isinstance(st.value, ast.Call) and isinstance(st.value.func, ast.IfExp):
+            import copy
+
+            call = st.value
+
+            def with_func(fn):
+                c2 = copy.deepcopy(call)
+                c2.func = fn
+                return ast.copy_location(ast.Expr(value=c2), st)
+
+            return self._split(st, call.func, with_func)
         # f(a, X if c else Y)   ==   if c: f(a, X)  else: f(a, Y)
         i = self._call_with_ifexp_arg(st.value)
         if i is not None:
@@ -1731,6 +1743,13 @@ def hoist_calls(repo, func):
             if isinstance(st, ast.Try):
                 for h in st.handlers:
                     h.body = block(h.body)
+            if isinstance(st, ast.For) and isinstance(st.iter, ast.Call) and inlinable(st.iter) and not any(isinstance(x, (ast.Yield, ast.YieldFrom)) for x in ast.walk(repo.resolve_call(func, st.iter).node)):
+                # for x in helper(...):   ==   t = helper(...); for x in t:   (the iterable is evaluated once, before the loop)
+                counter[0] += 1
+                nm = f"hoisted__{counter[0]}"
+                out.append(ast.copy_location(ast.Assign(targets=[ast.Name(id=nm, ctx=ast.Store())], value=st.iter), st))
+                st.iter = ast.copy_location(ast.Name(id=nm, ctx=ast.Load()), st.iter)
+                changed[0] = True
             if isinstance(st, (ast.Assign, ast.Return, ast.Expr, ast.AugAssign)) and st.value is not None:
                 pre = []
                 top = st.value if isinstance(st.value, ast.Call) else None
@@ -2454,6 +2473,18 @@ class Ctx:
         self.analysed: set[str] = set()
         self.expected_counts: dict[str, int] = {}
         self.notes: list[str] = []
+        self.deferred: list[AnalysisError] = []
+
+    def run(self, rule_fn, *args, **kwargs):
+        """Evaluate one rule.  A rule that turns out undecidable is recorded and the remaining rules are still
+        evaluated: a violation established by any rule is reported whatever the order of evaluation, and a run in which
+        some rule was undecidable and none was violated ends as ANALYSIS-ERROR (exit 2) all the same."""
+        try:
+            return rule_fn(self, *args, **kwargs)
+        except AnalysisError as e:
+            if not any((d.rule, d.where, d.reason) == (e.rule, e.where, e.reason) for d in self.deferred):
+                self.deferred.append(e)
+            return None
 
     def analysed_func(self, f: Func):
         self.analysed.add(f"{f.module.name}.{f.qualname}")
